@@ -64,6 +64,32 @@ def h_dirs(ctx, D, P, shape):
         ctx.eq(plain(u3.data), Xc, 'base_and_dirs2utpm(utpm2base_and_dirs(u))')
 
 
+def h_seed_roundtrip(ctx, shape):
+    """base point + direction -> polynomial (init_jac_vec / init_hess_vec / init_jacobian) -> read
+    back with the matching extract_*: the direction array of any shape comes back unchanged"""
+    algopy = symx.load_algopy()
+    UTPM = algopy.UTPM
+    shape = tuple(shape)
+    x = _vars(ctx, 'x', shape)
+    v = _vars(ctx, 'v', shape)
+    u = UTPM.init_jac_vec(mk_array(ctx, x), mk_array(ctx, v))
+    U = plain(u.data)
+    ctx.fact(U.shape == (2, 1) + shape, 'init_jac_vec shape %s' % (U.shape,))
+    ctx.eq(U[0, 0], x, 'init_jac_vec base point')
+    ctx.eq(U[1, 0], v, 'init_jac_vec direction')
+    back = plain(np.asarray(UTPM.extract_jac_vec(u)))
+    ctx.fact(back.shape == shape, 'extract_jac_vec(init_jac_vec(x, v)) has the shape of v: %s vs %s' % (back.shape, shape))
+    if back.shape == shape:
+        ctx.eq(back, v, 'extract_jac_vec(init_jac_vec(x, v)) == v')
+    if len(shape) == 1:
+        N = shape[0]
+        uj = UTPM.init_jacobian(mk_array(ctx, x))
+        J = plain(np.asarray(UTPM.extract_jacobian(uj)))
+        I = np.array([[1 if i == j else 0 for j in range(N)] for i in range(N)], dtype=object)
+        ctx.eq(J, I, 'extract_jacobian(init_jacobian(x)) == identity')
+        ctx.eq(plain(uj.data)[0], np.array([x] * N, dtype=object), 'init_jacobian base points')
+
+
 def h_dirs_intbase(ctx, D, P):
     """integer-typed base point (a list / arange) with real directions"""
     algopy = symx.load_algopy()
@@ -300,6 +326,8 @@ def units(tier, seed):
                         [(3, 2, (2,)), (2, 1, (2, 2)), (3, 2, ()), (4, 3, (2, 1, 2)), (1, 2, (2,))]):
         add('dirs/D%d,P%d,%s' % (D, P, shape), 'h_dirs', D=D, P=P, shape=shape)
     add('dirs/integer base point/D3,P2', 'h_dirs_intbase', D=3, P=2)
+    for shape in [(3,), (2, 3), (3, 2), (2, 2), (2, 3, 2), ()]:
+        add('seed round trip/%s' % (shape,), 'h_seed_roundtrip', shape=shape)
     for n in ((2, 3) if tier == 'quick' else (1, 2, 3, 4)):
         for uplo in ('F', 'L', 'U'):
             add('symvec/ndarray/n%d,%s' % (n, uplo), 'h_symvec', n=n, uplo=uplo, kind='ndarray')
